@@ -242,6 +242,32 @@ theorem gen_object_state :
     Gen.C08.moduleState_localization = ["logger = logging.getLogger(__name__)", "LocalizationPacket = collections.namedtuple('localizationPacket', ['type', 'raw_data', 'data'])"] ∧
     Gen.C08.moduleState_platformservice = ["logger = logging.getLogger(__name__)"] := by decide
 
+/-- **A fresh packet object per call.**  Every method that calls `Crazyflie.send_packet` passes the local `pk`, whose only
+binding in that method is `pk = CRTPPacket()`; the other emitting methods delegate to one of these and pass no packet
+object.  Together with `gen_object_state` (no packet stored on `self`): a packet object handed to the link is never
+reachable from, hence never written by, a later call. -/
+theorem gen_fresh_packet :
+    ([
+      Gen.C08.setpoint_sentObject, Gen.C08.notifyStop_sentObject, Gen.C08.stopSetpoint_sentObject,
+      Gen.C08.velocityWorld_sentObject, Gen.C08.zdistance_sentObject, Gen.C08.hover_sentObject,
+      Gen.C08.fullState_sentObject, Gen.C08.position_sentObject, Gen.C08.hlSend_sentObject, Gen.C08.extpos_sentObject,
+      Gen.C08.extpose_sentObject, Gen.C08.shortLpp_sentObject, Gen.C08.emergencyStop_sentObject,
+      Gen.C08.emergencyWatchdog_sentObject, Gen.C08.lhPersist_sentObject, Gen.C08.contWave_sentObject,
+      Gen.C08.arming_sentObject, Gen.C08.crashRecovery_sentObject].all (· == ["pk"])) = true ∧
+    ([
+      Gen.C08.setpoint_sentBindings, Gen.C08.notifyStop_sentBindings, Gen.C08.stopSetpoint_sentBindings,
+      Gen.C08.velocityWorld_sentBindings, Gen.C08.zdistance_sentBindings, Gen.C08.hover_sentBindings,
+      Gen.C08.fullState_sentBindings, Gen.C08.position_sentBindings, Gen.C08.hlSend_sentBindings,
+      Gen.C08.extpos_sentBindings, Gen.C08.extpose_sentBindings, Gen.C08.shortLpp_sentBindings,
+      Gen.C08.emergencyStop_sentBindings, Gen.C08.emergencyWatchdog_sentBindings, Gen.C08.lhPersist_sentBindings,
+      Gen.C08.contWave_sentBindings, Gen.C08.arming_sentBindings, Gen.C08.crashRecovery_sentBindings].all (· == ["pk = CRTPPacket()"])) = true ∧
+    ([
+      Gen.C08.hlGroupMask_sentObject, Gen.C08.hlTakeoff_sentObject, Gen.C08.hlLand_sentObject,
+      Gen.C08.hlStop_sentObject, Gen.C08.hlGoTo_sentObject, Gen.C08.hlSpiral_sentObject,
+      Gen.C08.hlStartTraj_sentObject, Gen.C08.hlDefineTraj_sentObject, Gen.C08.extposWrap_sentObject,
+      Gen.C08.extposeWrap_sentObject, Gen.C08.lopoPosition_sentObject, Gen.C08.lopoReboot_sentObject,
+      Gen.C08.lopoMode_sentObject].all (· == [])) = true := by decide
+
 /-- CRTPPacket: constructor defaults, property setters, header recomputation, size check in Crazyflie.send_packet -/
 theorem gen_packet :
     Gen.C08.pktInitParams = ["self", "header=0", "data=None"] ∧
@@ -376,6 +402,26 @@ theorem history_version_is_latest (a b : List Ev) (v w : Int) (hb : ∀ e ∈ b,
     (stateAfter Objs.init b).version = -1 :=
   ⟨lastNegotiated_append_negotiated a b v w hb, lastNegotiated_none b w hb,
    by rw [stateAfter_eq]; exact lastNegotiated_none b _ hb⟩
+
+/-- **What reaches the wire.**  The link driver queues the packet OBJECT and serialises it later, possibly after further API
+calls.  For every schedule — any interleaving of calls, version negotiations, x-mode toggles and points where the link's
+thread transmits — once the link has drained, the frames on the wire are exactly the packets the successful calls emitted,
+one per call and in call order (each of which `history_decodes` shows to decode to its own call's arguments). -/
+theorem wire_is_what_was_emitted (s : Objs) (evs : List LEv) :
+    (runL (s, LinkSt.init) (evs ++ [.transmit])).2.wire = emitted (run s (apiEvents evs)) := by
+  have hwf : LinkSt.init.WF := by intro i hi; cases hi
+  obtain ⟨_, _, h3, _⟩ := runL_inv evs s LinkSt.init hwf
+  have hsplit : runL (s, LinkSt.init) (evs ++ [.transmit]) = stepL (runL (s, LinkSt.init) evs) .transmit := by
+    simp [runL, List.foldl_append]
+  rw [hsplit]
+  show (runL (s, LinkSt.init) evs).2.wire ++ pending (runL (s, LinkSt.init) evs).2 = _
+  rw [h3]; simp [LinkSt.init, pending]
+
+/-- **Packet freshness.**  A packet object that a call handed to the link is never written again: whatever happens later
+(any further calls, negotiations, transmissions), every object already in the heap keeps its content. -/
+theorem emitted_packet_never_mutated (s : Objs) (l : LinkSt) (hwf : ∀ i ∈ l.queue, i < l.heap.length) (evs : List LEv) :
+    ∀ i, i < l.heap.length → (runL (s, l) evs).2.heap[i]? = l.heap[i]? :=
+  (runL_inv evs s l hwf).2.2.2
 
 /-- **Unrepresentable arguments raise.**  If some argument cannot be represented in its field (a float beyond binary32,
 an int outside the field or thrust outside 0..65535, a float where an int is required, a fixed-point component outside
@@ -610,5 +656,9 @@ example : (run Objs.init [.negotiated 10, .call (.hover (.f 0 (.bits 1)) (.f 0 (
      (9, .ok [([10], [0, 0, 0x80, 0x3F])])] := by decide
 example : ∀ e ∈ [Ev.setXmode true, .call .stopSetpoint], ∀ u, e ≠ .negotiated u := by
   intro e he u; simp only [List.mem_cons, List.not_mem_nil, or_false] at he; rcases he with rfl | rfl <;> exact fun h => Ev.noConfusion h
+
+-- two high-level commands back to back, the link transmits only afterwards: two frames, stop then set_group_mask
+example : (runL (Objs.init, LinkSt.init) [.api (.negotiated 10), .api (.call (.hlStop (.i 0 (.err .other)))),
+      .api (.call (.hlGroupMask (.i 5 (.err .other)))), .transmit]).2.wire = [⟨0x8C, [3, 0]⟩, ⟨0x8C, [0, 5]⟩] := by decide
 
 end CfVerif.C08
